@@ -103,7 +103,7 @@ type waiter struct {
 func scenario(t *testing.T, idx int64, c ctor, r *rand.Rand) {
 	var trace []string
 	grants := 0
-	synctest.Test(t, func(t *testing.T) {
+	bubble(t, func(t *testing.T) {
 		start := time.Now()
 		now := func() time.Duration { return time.Since(start) }
 		var lim core.Limiter
@@ -295,4 +295,9 @@ func TestCheck(t *testing.T) {
 		rt.Case()
 		scenario(t, idx, cs[int(idx)%len(cs)], r)
 	})
+}
+
+// bubble runs f in a synctest bubble; a bubble that cannot end (goroutines left blocked) is recorded, not fatal.
+func bubble(t *testing.T, f func(*testing.T)) {
+	rt.Bubble(func() { synctest.Test(t, f) }, "C11")
 }
